@@ -10,11 +10,22 @@
 (*                            with (itself a real run; must be clean)      *)
 (*   {"e":"Run","want":W}     a fresh daemon; W steps lie wholly inside    *)
 (*                            the bytes that were sent                     *)
-(*   {"e":"S","k":..,"j":..,"oc":..,"n":..,"roc":..,"rn":..}               *)
+(*   {"e":"Prompt","due":D,"got":G,"len":L,"size":4096,"ms":..,"dead":..} *)
+(*                            a chunk of L = k * 4096 bytes (the daemon's  *)
+(*                            read size) ending in a barrier line has been *)
+(*                            read; the input stayed open and nothing else *)
+(*                            was written: G of the D barrier answers due  *)
+(*                            were seen within the time-out                *)
+(*   {"e":"S","k":..,"j":..,"oc":..,"n":..,"roc":..,"rn":..,"g":..}        *)
 (*                            step k finished (barrier answered): output   *)
 (*                            and in-use count, and those of the same line *)
 (*                            in the reference run (oc/roc: canonical JSON *)
-(*                            text of the parsed output, compared here)    *)
+(*                            text of the parsed output, compared here);   *)
+(*                            g = 1: junk lines were glued in front of the *)
+(*                            line (no barrier in between: same read()     *)
+(*                            chunk, same call of iauth_read()); ocq/rocq: *)
+(*                            the outputs without oper notices (the glued  *)
+(*                            junk may print notices of its own)           *)
 (*   {"e":"Eof",...}          end of input: exit status, sanitizer report, *)
 (*                            hang flag, output after the last barrier     *)
 (* Contract conjuncts (printed as @@V when violated):                      *)
@@ -24,7 +35,12 @@
 (*   exit       exit status 0 at end of input                              *)
 (*   sanitizer  no AddressSanitizer / LeakSanitizer report                 *)
 (*   same       a well-formed line gets the output and in-use count it got *)
-(*              in the clean run                                           *)
+(*              in the clean run (also when junk lines sit directly in     *)
+(*              front of it in the same chunk)                             *)
+(*   prompt     ReadLine!NoLineWaiting on the real daemon: once a chunk    *)
+(*              has been read - also one that fills the read buffer k      *)
+(*              times exactly - every complete line in it is acted upon    *)
+(*              (the barrier lines answered) without further input         *)
 (*   stutter    a junk line prints nothing but oper notices and leaves the *)
 (*              number of requests alone                                   *)
 (*   tail       what is printed after the last finished step is the output *)
@@ -54,7 +70,8 @@ OnlyNotices(o) == \A k \in 1..Len(o) : o[k].k = ">"
 
 \* anti-vacuity counters, printed (@@N) with the last line: how often each part of the oracle was exercised
 NoCnt == [refs |-> 0, runs |-> 0, steps |-> 0, junksteps |-> 0, notices |-> 0, eofs |-> 0, cut |-> 0, tailalt |-> 0,
-          tailjunk |-> 0, tailpart |-> 0, cases |-> 0, junkcases |-> 0, predcases |-> 0, prednotices |-> 0, ends |-> 0]
+          tailjunk |-> 0, tailpart |-> 0, cases |-> 0, junkcases |-> 0, predcases |-> 0, prednotices |-> 0, ends |-> 0,
+          prompts |-> 0, promptk |-> 0, glued |-> 0, gluedjunk |-> 0]
 Bump(f) == [cnt EXCEPT ![f] = @ + 1]
 BumpIf(c, f, cond) == IF cond THEN [c EXCEPT ![f] = @ + 1] ELSE c
 
@@ -69,16 +86,28 @@ TRun == /\ TraceLog[l].e = "Run"
         /\ run' = [k |-> 0, n |-> 0, want |-> TraceLog[l].want]
         /\ cnt' = Bump("runs")
 
+\* Promptness.  The record is only meaningful if the chunk was a whole number of read buffers (the driver sees to
+\* that; a record that says otherwise is rejected as "promptsetup").  A daemon that died is the Eof record's business.
+TPrompt ==
+    /\ TraceLog[l].e = "Prompt"
+    /\ LET rec == TraceLog[l]
+           v == (IF rec.size = ReadSize /\ rec.len > 0 /\ rec.len % ReadSize = 0 /\ rec.due >= 1 THEN {} ELSE {"promptsetup"})
+                \cup (IF rec.got >= rec.due \/ rec.dead = 1 THEN {} ELSE {"prompt"})
+       IN /\ Report(v)
+          /\ cnt' = BumpIf(Bump("prompts"), "promptk", rec.len > ReadSize)
+    /\ UNCHANGED run
+
 TStep ==
     /\ TraceLog[l].e = "S"
     /\ LET rec == TraceLog[l]
            v == (IF rec.k = run.k + 1 /\ rec.k <= run.want THEN {} ELSE {"complete"})
                 \cup (IF rec.j = 0
-                      THEN (IF rec.oc = rec.roc /\ rec.n = rec.rn THEN {} ELSE {"same"})
+                      THEN (IF (IF rec.g = 1 THEN rec.ocq = rec.rocq ELSE rec.oc = rec.roc) /\ rec.n = rec.rn THEN {} ELSE {"same"})
                       ELSE (IF OnlyNotices(rec.o) /\ rec.n = run.n THEN {} ELSE {"stutter"}))
        IN /\ Report(v)
           /\ run' = [run EXCEPT !.k = rec.k, !.n = rec.n]
-          /\ cnt' = BumpIf(BumpIf(Bump("steps"), "junksteps", rec.j = 1), "notices", rec.j = 1 /\ rec.o # <<>>)
+          /\ cnt' = BumpIf(BumpIf(BumpIf(BumpIf(Bump("steps"), "junksteps", rec.j = 1), "notices", rec.j = 1 /\ rec.o # <<>>),
+                                  "glued", rec.g = 1 /\ rec.j = 0), "gluedjunk", rec.g = 1 /\ rec.j = 1)
 
 TEof ==
     /\ TraceLog[l].e = "Eof"
@@ -207,7 +236,7 @@ TEnd ==
     /\ cnt' = Bump("ends")
 
 TNext == /\ l <= Len(TraceLog)
-         /\ (TRef \/ TRun \/ TStep \/ TEof \/ TCase \/ TEnd)
+         /\ (TRef \/ TRun \/ TPrompt \/ TStep \/ TEof \/ TCase \/ TEnd)
          /\ l' = l + 1
          /\ IF l = Len(TraceLog) THEN PrintT("@@N" \o ToJson(cnt')) ELSE TRUE
 =============================================================================
